@@ -33,6 +33,9 @@ type World struct {
 	Detached bool
 	// AlgFromKey: the consumer derives the algorithm from the designated key and never reads the header's alg.
 	AlgFromKey bool
+	// CanonicalOnly: the received bytes are themselves identity (a DAG transaction's reference is their hash), so the same
+	// signature must not be admissible under two byte strings: every non-canonical serialisation is must-reject.
+	CanonicalOnly bool
 	// Near: the near-miss kind the adapter used to derive the attacker's identity from the victim's ("" = unrelated).
 	Near string
 }
@@ -69,8 +72,10 @@ type Mut struct {
 
 // EncOp re-encodes a compact segment without changing the decoded bytes, or adds unsigned decoration to the token.
 type EncOp struct {
-	Seg int    `json:"seg"` // 0 header, 1 payload, 2 signature; ignored by whole-token ops
-	Op  string `json:"op"`  // pad | std | trailbits | extra-seg | lead-ws | trail-nl
+	Seg int    `json:"seg"`           // 0 header, 1 payload, 2 signature; ignored by whole-token ops
+	Op  string `json:"op"`            // pad | std | trailbits | ws-in | ws-before | ws-after | extra-seg | lead-ws | trail-nl
+	Ch  string `json:"ch,omitempty"`  // ws-*: cr | lf | crlf | sp | tab
+	Pos uint32 `json:"pos,omitempty"` // ws-in: where inside the segment
 }
 
 // Variant is one hostile (or the valid) token as plain data.
@@ -521,9 +526,9 @@ func Build(w World, v Variant) Built {
 				if e.Seg < 0 || e.Seg > 2 {
 					continue
 				}
-				if np, ok := reencode(parts[e.Seg], e.Op); ok {
+				if np, label, ok := reencode(parts[e.Seg], e); ok {
 					parts[e.Seg] = np
-					F.Reencoded = append(F.Reencoded, fmt.Sprintf("%s@%d", e.Op, e.Seg))
+					F.Reencoded = append(F.Reencoded, fmt.Sprintf("%s@%d", label, e.Seg))
 				}
 			}
 			tok = []byte(strings.Join(parts, "."))
@@ -648,27 +653,54 @@ func mutate(in []byte, hdr Header, m Mut) ([]byte, string) {
 
 const b64urlAlphabet = "ABCDEFGHIJKLMNOPQRSTUVWXYZabcdefghijklmnopqrstuvwxyz0123456789-_"
 
-// reencode changes the text of a base64url segment without changing what it decodes to.
-func reencode(seg, op string) (string, bool) {
-	switch op {
+func wsChar(ch string) (string, string) {
+	switch ch {
+	case "cr":
+		return "\r", "cr"
+	case "crlf":
+		return "\r\n", "crlf"
+	case "sp":
+		return " ", "sp"
+	case "tab":
+		return "\t", "tab"
+	}
+	return "\n", "lf"
+}
+
+// reencode changes the text of a base64url segment without changing what a lenient decoder makes of it (padding, standard
+// alphabet, unused trailing bits; CR / LF, which Go's decoders skip) or decorates it with other white space.
+func reencode(seg string, e EncOp) (out string, label string, changed bool) {
+	switch e.Op {
 	case "pad":
 		if len(seg)%4 != 0 && len(seg) > 0 {
-			return seg + strings.Repeat("=", 4-len(seg)%4), true
+			return seg + strings.Repeat("=", 4-len(seg)%4), "pad", true
 		}
 	case "std":
 		if strings.ContainsAny(seg, "-_") {
-			return strings.NewReplacer("-", "+", "_", "/").Replace(seg), true
+			return strings.NewReplacer("-", "+", "_", "/").Replace(seg), "std", true
 		}
 	case "trailbits":
 		if r := len(seg) % 4; (r == 2 || r == 3) && !strings.HasSuffix(seg, "=") {
 			i := strings.IndexByte(b64urlAlphabet, seg[len(seg)-1])
-			if i >= 0 && i+1 < 64 {
+			if i >= 0 {
 				// the low 4 (r==2) or 2 (r==3) bits of the last character are not part of the data
-				return seg[:len(seg)-1] + string(b64urlAlphabet[i|1]), b64urlAlphabet[i|1] != seg[len(seg)-1]
+				return seg[:len(seg)-1] + string(b64urlAlphabet[i|1]), "trailbits", b64urlAlphabet[i|1] != seg[len(seg)-1]
 			}
 		}
+	case "ws-in":
+		if len(seg) >= 2 {
+			c, name := wsChar(e.Ch)
+			at := 1 + int(e.Pos)%(len(seg)-1)
+			return seg[:at] + c + seg[at:], "ws-in-" + name, true
+		}
+	case "ws-before":
+		c, name := wsChar(e.Ch)
+		return c + seg, "ws-before-" + name, true
+	case "ws-after":
+		c, name := wsChar(e.Ch)
+		return seg + c, "ws-after-" + name, true
 	}
-	return seg, false
+	return seg, "", false
 }
 
 func lenientB64(s string) ([]byte, bool) {
@@ -729,6 +761,14 @@ func contains(l []string, s string) bool {
 // key is part of the protocol; (identity-bound consumers) verified by another party's key. Everything else carries no
 // expectation, except the untouched token, which must be accepted.
 func Truth(w World, f Facts) Verdict {
+	vd := truth(w, f)
+	if w.CanonicalOnly && !vd.MustReject && (len(f.Reencoded) > 0 || f.Ser != "compact") {
+		return Verdict{MustReject: true, Reason: "non-canonical-serialisation"}
+	}
+	return vd
+}
+
+func truth(w World, f Facts) Verdict {
 	if f.Malformed != "" {
 		return Verdict{MustReject: true, Reason: "malformed-" + f.Malformed}
 	}
@@ -888,6 +928,17 @@ func Judge(consumer string, w World, v Variant, b Built, o Observation) (fs []Fi
 	classes = []string{"t:" + v.T, "truth:" + truth + ":" + outcome, "reason:" + vd.Reason, "ser:" + b.F.Ser, "vkey:" + v.VKey, "ref:" + b.F.Ref}
 	if !vd.MustReject && !vd.MustAccept {
 		classes = append(classes, "may-accept:"+v.T+":"+outcome)
+	}
+	if vd.Reason == "non-canonical-serialisation" {
+		if b.F.Ser != "compact" {
+			classes = append(classes, "non-canonical:json-"+b.F.Ser+":"+outcome)
+		}
+		for _, op := range b.F.Reencoded {
+			if i := strings.IndexByte(op, '@'); i > 0 {
+				op = op[:i]
+			}
+			classes = append(classes, "non-canonical:"+op+":"+outcome)
+		}
 	}
 	if b.F.Near != "" {
 		for _, s := range b.F.Sigs {
